@@ -123,27 +123,59 @@ def runG (guarded : Bool) : Ui → List Event → Outcome Ui
 def run (ui : Ui) (evs : List Event) : Outcome Ui := runG true ui evs
 
 /-- What ratatui 0.29 `Table::render` does to the selection when the table is drawn with
-    `n'` rows (`widgets/table/table.rs`: clamp to the last row, then `select(None)` when there
-    is no row).  jet1090 draws after every handled event, with the row count of that moment
-    (`table.rs` refills `items`), so this is the only other writer of the selection.
-    Modelled from reading ratatui, not tied by the correspondence check (DESIGN §4). -/
+    `n'` rows on a terminal large enough to show it (`widgets/table/table.rs`,
+    `StatefulWidgetRef::render_ref`: clamp to the last row, then `select(None)` when there is no
+    row).  jet1090 draws after every handled event, with the row count of that moment
+    (`table::build_table` refills `items`), so this is the only other writer of the selection.
+    Written from ratatui 0.29.0 (`Props/C17.ratatui_version_modelled` pins that version against
+    Cargo.lock) and compared with the real `build_table` + `Table::render` on a `TestBackend`
+    through the `Draw<m>` step of the verification driver (`drawOn` below). -/
 def draw (ui : Ui) (n' : Nat) : Ui :=
   let s := match ui.selected with
     | some i => if i ≥ n' then some (n' - 1) else some i
     | none => none
   { ui with n := n', selected := if n' = 0 then none else s }
 
+/-- Size of the terminal `build_table` draws on (columns × lines). -/
+structure Term where
+  w : Nat
+  h : Nat
+  deriving DecidableEq, Repr, Inhabited
+
+/-- The table area of `build_table` — the frame minus the one-line footer
+    (`Layout::vertical([Min(5), Length(1)])`, the `Min` wins on a short terminal), inside a
+    `Borders::ALL` block with `Padding::symmetric(1, 0)` — is non-empty: at least 5 columns and
+    3 lines.  Otherwise `Table::render_ref` returns at `if table_area.is_empty()` BEFORE the
+    clamp.  (Rule read off ratatui's layout for the sizes 0..8 × 0..8 and ordinary sizes by the
+    correspondence check; the cassowary solver itself is not modelled.) -/
+def Term.showsTable (t : Term) : Bool := decide (5 ≤ t.w) && decide (3 ≤ t.h)
+
+/-- One `terminal.draw(|frame| table::build_table(frame, &mut app))` on a terminal of size `t`
+    when the refill of `items` yields `n'` rows:
+    * ratatui 0.29's `Scrollbar` (rendered by `build_table` after the table) panics with
+      "Scrollbar area is empty" (`Option::expect` in `scollbar_area`) when it has content
+      (`content_length = n' > 0`), a track (`3 ≤ h`) and no column (`w = 0`);
+    * on a terminal too small to show the table only `items` changes (no clamp);
+    * otherwise `draw`. -/
+def drawOn (t : Term) (ui : Ui) (n' : Nat) : Outcome Ui :=
+  if t.w = 0 ∧ 3 ≤ t.h ∧ 0 < n' then .panic .unwrapNone
+  else if t.showsTable then .ok (draw ui n')
+  else .ok { ui with n := n' }
+
 /-- A TUI session as jet1090 runs it: handled events interleaved with redraws, each redraw
-    with whatever number of rows the table holds at that moment. -/
+    with whatever number of rows the table holds at that moment.  `redraw` is a redraw on a
+    terminal that shows the table (the ordinary case), `redrawOn` one on a terminal of any size. -/
 inductive Step where
   | ev (e : Event)
   | redraw (rows : Nat)
+  | redrawOn (t : Term) (rows : Nat)
   deriving DecidableEq, Repr, Inhabited
 
 def session : Ui → List Step → Outcome Ui
   | ui, [] => .ok ui
   | ui, .ev e :: rest => (update ui e).bind fun ui' => session ui' rest
   | ui, .redraw rows :: rest => session (draw ui rows) rest
+  | ui, .redrawOn t rows :: rest => (drawOn t ui rows).bind fun ui' => session ui' rest
 
 /-! ### Line protocol (driver) -/
 
@@ -180,6 +212,42 @@ def parseInit (tok : String) : Option Ui :=
   | [n] => n.toNat?.map fun n => init n
   | [n, s] => n.toNat?.bind fun n => s.toNat?.map fun s => init n (some s)
   | _ => none
+
+/-- Scenario tokens of the `tui` op: an event, `Draw<m>:<k>` (a redraw after `m` aircraft were
+    offered, of which the search filter kept `k` — the filter is not modelled, `k` is what the real
+    `build_table` reported), `Term<w>x<h>` (size of the terminal for the following redraws). -/
+inductive Tok where
+  | ev (e : Event) | draw (k : Nat) | term (t : Term)
+  deriving Repr, Inhabited
+
+def parseTok (tok : String) : Option Tok :=
+  if tok.startsWith "Draw" then
+    match (tok.drop 4).toString.splitOn ":" with
+    | [m, k] => m.toNat?.bind fun _ => k.toNat?.map Tok.draw
+    | _ => none
+  else if tok.startsWith "Term" && tok.length > 4 then
+    match (tok.drop 4).toString.splitOn "x" with
+    | [w, h] => w.toNat?.bind fun w => h.toNat?.map fun h => Tok.term ⟨w, h⟩
+    | _ => none
+  else (parseEvent tok).map Tok.ev
+
+/-- the terminal the verification driver starts with -/
+def Term.driverDefault : Term := ⟨100, 30⟩
+
+/-- states after each step, `panic` ends the trace (events through `update`, redraws through `drawOn`) -/
+def traceToks (t : Term) : Ui → List Tok → List String
+  | _, [] => []
+  | ui, .ev ev :: rest =>
+    match update ui ev with
+    | .ok ui' => showUi ui' :: traceToks t ui' rest
+    | .err _ => ["err"]
+    | .panic _ => ["panic"]
+  | ui, .draw k :: rest =>
+    match drawOn t ui k with
+    | .ok ui' => s!"rows={k} {showUi ui'}" :: traceToks t ui' rest
+    | .err _ => ["err"]
+    | .panic _ => ["panic"]
+  | ui, .term t' :: rest => showUi ui :: traceToks t' ui rest
 
 /-- states after each event, `panic` ends the trace -/
 def trace (guarded : Bool) : Ui → List Event → List String
